@@ -85,13 +85,14 @@ class ConstEval:
             return v
         return None
 
-    def run(self, fn, args, stop_at=None, max_steps=20000):
+    def run(self, fn, args, stop_at=None, max_steps=20000, gmem=None, call_hook=None):
         """interpret fn with concrete int args (None = unknown). returns dict(ret=value, events=[(kind, ins, data)], objects={})"""
         env = {}
         for (t, n), a in zip(fn.params, args):
             env[n] = a
         objects = {}
         events = []
+        gmem = dict(gmem or {})
         b, prev = fn.entry, None
         steps = 0
         def val(o):
@@ -179,6 +180,9 @@ class ConstEval:
                         env[ins.res] = None
                 elif op == 'load':
                     p = val(ins.ops[0])
+                    if isinstance(p, tuple) and p[0] == 'g' and p[2] == () and p[1] in gmem:
+                        env[ins.res] = gmem[p[1]]
+                        continue
                     if isinstance(p, tuple) and p[0] == 'obj' and len(p[2]) == 2 and p[2][0] == 'byte':
                         whole = objects.get(p[1], {}).get(())
                         if isinstance(whole, int) and ins.ty == 'i8' and 0 <= p[2][1] < 8:
@@ -197,6 +201,8 @@ class ConstEval:
                             env[ins.res] = None
                 elif op == 'store':
                     p = val(ins.ops[1])
+                    if isinstance(p, tuple) and p[0] == 'g' and p[2] == ():
+                        gmem[p[1]] = val(ins.ops[0])
                     if isinstance(p, tuple) and p[0] == 'obj':
                         objects.setdefault(p[1], {})[p[2]] = val(ins.ops[0])
                     events.append(('store', ins, (p, val(ins.ops[0]))))
@@ -211,7 +217,7 @@ class ConstEval:
                     else:
                         events.append(('call', ins, [val(o) for o in ins.ops]))
                         if ins.res:
-                            env[ins.res] = None
+                            env[ins.res] = call_hook(ins, [val(o) for o in ins.ops]) if call_hook else None
                 elif op == 'alloca':
                     oid = f'loc{len(objects)}'
                     objects[oid] = {}
@@ -222,7 +228,7 @@ class ConstEval:
                     raise AnalysisBroken('consteval: unsupported ' + ins.text[:80])
             t = b.insts[-1]
             if t.op == 'ret':
-                return {'ret': val(t.ops[0]) if t.ops else None, 'events': events, 'objects': objects}
+                return {'ret': val(t.ops[0]) if t.ops else None, 'events': events, 'objects': objects, 'gmem': gmem}
             if t.op == 'unreachable':
                 return {'ret': 'unreachable', 'events': events, 'objects': objects}
             if t.op == 'br':
